@@ -1,1 +1,276 @@
-fn main(){}
+//! Interleaving engine: deviation-bounded DFS over schedules of the real
+//! stream / runner code on shuttle (C03, C04, C05, C07).
+mod dfs;
+mod streams;
+
+use serde_json::{Value, json};
+use vcommon::*;
+
+use streams::{EosParams, PcParams};
+
+#[derive(Clone, Debug)]
+pub enum Scenario {
+    Pc(PcParams),
+    Eos(EosParams),
+}
+
+impl Scenario {
+    fn to_json(&self) -> Value {
+        match self {
+            Scenario::Pc(p) => p.to_json(),
+            Scenario::Eos(p) => p.to_json(),
+        }
+    }
+    fn from_json(v: &Value) -> Self {
+        match v["scenario"].as_str().unwrap() {
+            "pc" => Scenario::Pc(PcParams::from_json(v)),
+            "eos" => Scenario::Eos(EosParams::from_json(v)),
+            s => panic!("unknown scenario {s}"),
+        }
+    }
+    fn subject(&self) -> String {
+        match self {
+            Scenario::Pc(_) => "producer-consumer".into(),
+            Scenario::Eos(p) => p.kind.clone(),
+        }
+    }
+    fn run(&self) {
+        match self {
+            Scenario::Pc(p) => streams::pc_scenario(p),
+            Scenario::Eos(p) => streams::eos_scenario(p),
+        }
+    }
+}
+
+/// Can the two scripts complete at all on a buffer of this capacity? (A
+/// writer needing 2 free slots facing a reader needing 2 samples, with 1
+/// buffered, is a deadlock of the *program*, not of the stream.)
+fn feasible(cap: usize, w: &[usize], r: &[usize]) -> bool {
+    let (mut wi, mut ri, mut used) = (0, 0, 0usize);
+    loop {
+        if wi == w.len() && ri == r.len() {
+            return true;
+        }
+        let mut moved = false;
+        if wi < w.len() && cap - used >= w[wi] {
+            used += w[wi];
+            wi += 1;
+            moved = true;
+        }
+        if ri < r.len() && used >= r[ri] {
+            used -= r[ri];
+            ri += 1;
+            moved = true;
+        }
+        if !moved {
+            return false;
+        }
+    }
+}
+
+fn c03_scenarios(thorough: bool) -> Vec<Scenario> {
+    let mut v = Vec::new();
+    let ns: &[usize] = if thorough { &[3, 4, 5] } else { &[3] };
+    let caps: &[usize] = if thorough { &[1, 2, 4] } else { &[1, 2] };
+    for &cap in caps {
+        for &n in ns {
+            let comps = compositions(n, cap);
+            for w in &comps {
+                for r in &comps {
+                    if !feasible(cap, w, r) {
+                        continue;
+                    }
+                    for (wf, rf) in [(false, false), (true, true)] {
+                        if cap == 1 && wf {
+                            continue; // need is 1 either way
+                        }
+                        v.push(Scenario::Pc(PcParams {
+                            cap,
+                            pages: 1,
+                            wscript: w.clone(),
+                            rscript: r.clone(),
+                            wneed_full: wf,
+                            rneed_full: rf,
+                            hold: true,
+                        }));
+                    }
+                }
+            }
+        }
+    }
+    // Two-page stream with the capacity-1 element: capacity 2, different
+    // geometry.
+    v.push(Scenario::Pc(PcParams {
+        cap: 1,
+        pages: 2,
+        wscript: vec![2, 1],
+        rscript: vec![1, 2],
+        wneed_full: false,
+        rneed_full: false,
+        hold: true,
+    }));
+    v
+}
+
+fn c04_scenarios(_thorough: bool) -> Vec<Scenario> {
+    let mut v = Vec::new();
+    for kind in ["reader", "reader-eof", "nc-reader", "nc-reader-eof"] {
+        for j in 0..=2 {
+            for need in 1..=2 {
+                for backlog in 0..=1 {
+                    v.push(Scenario::Eos(EosParams {
+                        kind: kind.into(),
+                        j,
+                        need,
+                        backlog,
+                    }));
+                }
+            }
+        }
+    }
+    for j in 0..=2 {
+        for need in 1..=2 {
+            v.push(Scenario::Eos(EosParams {
+                kind: "writer".into(),
+                j,
+                need,
+                backlog: 0,
+            }));
+        }
+    }
+    v.push(Scenario::Eos(EosParams {
+        kind: "nc-writer".into(),
+        j: 0,
+        need: 1,
+        backlog: 0,
+    }));
+    v
+}
+
+fn scenarios(prop: &str, thorough: bool) -> Vec<Scenario> {
+    match prop {
+        "C03" => c03_scenarios(thorough),
+        "C04" => c04_scenarios(thorough),
+        _ => vec![],
+    }
+}
+
+fn max_bound(prop: &str, thorough: bool) -> u32 {
+    match (prop, thorough) {
+        ("C03", false) => 2,
+        ("C03", true) => 3,
+        ("C04", false) => 2,
+        ("C04", true) => 3,
+        (_, false) => 1,
+        (_, true) => 2,
+    }
+}
+
+fn main() {
+    let args: Vec<String> = std::env::args().collect();
+    quiet_panics();
+    if args.len() >= 3 && args[1] == "replay" {
+        let txt = std::fs::read_to_string(&args[2]).expect("read replay file");
+        let v: Value = serde_json::from_str(&txt).expect("parse replay file");
+        let sc = Scenario::from_json(&v["replay"]["scenario"]);
+        let choices: Vec<u32> = v["replay"]["choices"]
+            .as_array()
+            .unwrap()
+            .iter()
+            .map(|x| x.as_u64().unwrap() as u32)
+            .collect();
+        let sc2 = sc.clone();
+        let ex = dfs::explore(u32::MAX, Some(choices), 1, move || sc2.run());
+        if let Some(e) = ex.machinery_error {
+            println!("replay: machinery error: {e}");
+            std::process::exit(3);
+        }
+        match ex.failure {
+            Some((kind, msg, _)) => {
+                println!("replay: VIOLATION reproduced: [{kind}] {msg}");
+                std::process::exit(1);
+            }
+            None => {
+                println!("replay: no violation");
+                std::process::exit(0);
+            }
+        }
+    }
+    if args.len() < 3 {
+        eprintln!("usage: vmt <property> <tier> [shard/nshards] | vmt replay <file>");
+        std::process::exit(3);
+    }
+    let prop = args[1].clone();
+    let thorough = args[2] == "thorough";
+    let (shard, nshards) = match args.get(3) {
+        Some(s) => {
+            let (a, b) = s.split_once('/').unwrap();
+            (a.parse::<usize>().unwrap(), b.parse::<usize>().unwrap())
+        }
+        None => (0, 1),
+    };
+    let mut rep = Report::new(&prop, "mt");
+    rep.rule = "executions of the real code under a controlled scheduler (shuttle runtime, own deviation-bounded DFS): \
+        every interleaving at lock / unlock / after-unlock / wait / notify / spawn / join points with at most d preemptions \
+        plus early timeouts, d iterated from 0; each execution is one case; distinct_nontrivial counts executions with at \
+        least one deviation from the default schedule"
+        .into();
+    rep.assumptions = vec![
+        "sample memory is touched only through window slices, so window disjointness (monitored) stands in for a data-race detector".into(),
+        "hardware memory ordering weaker than sequential consistency at mutex boundaries is not modelled".into(),
+        "timeouts may fire at any scheduling point (cost 1) or when nothing else can run (free, longest waiter first)".into(),
+    ];
+    let scs = scenarios(&prop, thorough);
+    let dmax = max_bound(&prop, thorough);
+    let mut completed_bound = vec![];
+    let max_exec = if thorough { 50_000_000 } else { 3_000_000 };
+    'outer: for (i, sc) in scs.iter().enumerate() {
+        if i % nshards != shard {
+            continue;
+        }
+        let mut last = None;
+        for d in 0..=dmax {
+            let sc2 = sc.clone();
+            let ex = dfs::explore(d, None, max_exec, move || sc2.run());
+            rep.evaluations += ex.executions;
+            rep.transitions += ex.steps;
+            rep.states += ex.steps;
+            rep.traces_validated += ex.executions;
+            if d > 0 {
+                rep.distinct_nontrivial += ex.executions.saturating_sub(1);
+            }
+            if let Some(e) = &ex.machinery_error {
+                eprintln!("machinery error in {:?} at bound {d}: {e}", sc.to_json());
+                std::process::exit(3);
+            }
+            if ex.capped {
+                rep.cap(format!("{} bound {d}: execution cap {max_exec} reached", sc.to_json()));
+            }
+            if let Some((kind, msg, choices)) = &ex.failure {
+                rep.violation(
+                    format!("{prop}/{}/{kind}", sc.subject()),
+                    format!("{} at deviation bound {d} (execution {}): {msg}", sc.to_json(), ex.executions),
+                    json!({"engine":"mt","bin":"vmt","scenario":sc.to_json(),"choices":choices,"bound":d}),
+                );
+                if kind == "panic" {
+                    // The runtime was torn down by a panic. Don't trust this
+                    // process for further scenarios.
+                    rep.cap("shard stopped after a panic inside the explored code");
+                    break 'outer;
+                }
+                break;
+            }
+            last = Some((d, ex.executions, ex.steps, ex.max_steps, ex.max_points));
+        }
+        if let Some((d, e, s, ms, mp)) = last {
+            completed_bound.push(json!({"scenario": sc.to_json(), "bound_completed": d, "executions_at_bound": e,
+                "scheduling_points": s, "longest_execution": ms, "max_choice_points": mp}));
+            if rep.samples.len() < 4 {
+                rep.sample(json!({"scenario": sc.to_json(), "bound": d, "executions": e}));
+            }
+        }
+    }
+    rep.set("scenarios", json!(completed_bound));
+    rep.set("max_deviation_bound", json!(dmax));
+    rep.emit();
+}
